@@ -714,6 +714,7 @@ func (p *Parser) parsePrimaryExpression() (ast.Expression, error) {
 		// Handle identifiers and function calls
 		// Double-quoted strings are treated as identifiers in SQL (e.g., "column_name")
 		identName := p.currentToken.Literal
+		quoted := p.isType(models.TokenTypeDoubleQuotedString)
 		p.advance()
 
 		// Check for function call (identifier followed by parentheses)
@@ -730,6 +731,13 @@ func (p *Parser) parsePrimaryExpression() (ast.Expression, error) {
 			}
 
 			return funcCall, nil
+		}
+
+		// The SQL-92 datetime value functions are written without parentheses (CURRENT_DATE,
+		// CURRENT_TIME, CURRENT_TIMESTAMP, LOCALTIME, LOCALTIMESTAMP): they are function calls, not
+		// column references. A quoted "current_date" is an ordinary column name.
+		if !quoted && !p.isType(models.TokenTypePeriod) && ast.IsNiladicFunctionName(identName) {
+			return &ast.FunctionCall{Name: identName}, nil
 		}
 
 		// Handle regular identifier or qualified identifier (table.column or table.*)
